@@ -478,6 +478,16 @@ struct Lower {
   // expression statement list (returned as an expression using the comma operator).
   std::string initInto(const std::string& obj, QualType T, const Expr* I, Ctx& cx) {
     const Expr* S = skipTemps(I);
+    if (auto* AT0 = C.getAsConstantArrayType(T))
+      if (isa<CXXConstructExpr>(S)) {
+        // array of class objects constructed element by element with the same constructor call
+        uint64_t n = AT0->getSize().getZExtValue();
+        if (n > 64) die("large array of class objects", I);
+        std::string s = "(";
+        for (uint64_t i = 0; i < n; i++) s += std::string(i ? ", " : "") + initInto(obj + "[" + std::to_string(i) + "]", AT0->getElementType(), S, cx);
+        if (n == 0) s += "(void)0";
+        return s + ")";
+      }
     if (auto* CE = dyn_cast<CXXConstructExpr>(S)) {
       const CXXConstructorDecl* CD = CE->getConstructor();
       if (CD->isTrivial()) {
